@@ -118,7 +118,7 @@ func checkConj3(r *ev.Run, maxLen int) {
 				r.Violation("conj3/not-closed", fmt.Sprintf("MarchingCubesConj(%s, %v): %s", so.name, names, rep), conjCase{names, so.name, nil})
 			}
 			if det > 0 {
-				if w := topo.Winding3(lat.Tris(mesh), topo.P3{so.in.X, so.in.Y, so.in.Z}); math.Abs(w-1) > 1e-6 {
+				if w := topo.Winding3(lat.Tris(mesh), topo.P3{so.in.X, so.in.Y, so.in.Z}); !(math.Abs(w-1) <= 1e-6) {
 					r.Violation("conj3/winding", fmt.Sprintf("MarchingCubesConj(%s, %v): winding number %.3f at an interior point of the original solid", so.name, names, w), conjCase{names, so.name, nil})
 				}
 			}
